@@ -11,15 +11,16 @@ import (
 )
 
 type Config struct {
-	MaxSteps     int // SSA instructions per path (unwinding budget)
-	MaxDepth     int // call depth
-	MaxPaths     int // per harness run (decision budget); exceeded => Incomplete
-	MaxConcrete  int // max feasible values when concretising a symbolic scalar
-	Interpret    func(pkgPath string) bool
-	SolverBinary string
+	MaxSteps      int // SSA instructions per path (unwinding budget)
+	MaxDepth      int // call depth
+	MaxPaths      int // per harness run (decision budget); exceeded => Incomplete
+	MaxConcrete   int // max feasible values when concretising a symbolic scalar
+	Interpret     func(pkgPath string) bool
+	SolverBinary  string
 	ValidateEvery int // keep a model for every n-th completed path (0 = none)
-	Deadline     time.Time
-	Transcript   io.Writer // optional SMT-LIB transcript of everything sent to the solver
+	Deadline      time.Time
+	Transcript    io.Writer         // optional SMT-LIB transcript of everything sent to the solver
+	ExtraStubs    map[string]stubFn // harness-specific stubs (take precedence)
 }
 
 func DefaultConfig() Config {
@@ -27,13 +28,13 @@ func DefaultConfig() Config {
 }
 
 type Violation struct {
-	Kind   string // "assert", "panic", "budget"
-	ID     string
-	Msg    string
-	Model  map[string]uint64
-	Strs   map[string][]int64 // symbolic strings as rune arrays under the model
-	Obs    []ObsVal
-	Path   int
+	Kind  string // "assert", "panic", "budget"
+	ID    string
+	Msg   string
+	Model map[string]uint64
+	Strs  map[string][]int64 // symbolic strings as rune arrays under the model
+	Obs   []ObsVal
+	Path  int
 }
 
 type ObsVal struct {
@@ -51,31 +52,31 @@ type PathSample struct {
 }
 
 type Result struct {
-	Entry       string
-	Paths       int
-	Ends        map[string]int
-	Decisions   int // solver-decided branch outcomes (feasible sides explored)
-	Reached     map[string]int
-	Violations  []Violation
-	Samples     []PathSample
-	Unsupported []string
-	Incomplete  string // non-empty: exploration cut short (budget / deadline)
-	Steps       int64
-	Queries     QueryStats
-	Asserts     int // assertion obligations discharged (unsat or concretely true)
-	AssertIDs   map[string]int
+	Entry        string
+	Paths        int
+	Ends         map[string]int
+	Decisions    int // solver-decided branch outcomes (feasible sides explored)
+	Reached      map[string]int
+	Violations   []Violation
+	Samples      []PathSample
+	Unsupported  []string
+	Incomplete   string // non-empty: exploration cut short (budget / deadline)
+	Steps        int64
+	Queries      QueryStats
+	Asserts      int // assertion obligations discharged (unsat or concretely true)
+	AssertIDs    map[string]int
 	AssumePruned int
-	Stubs       map[string]int
-	Funcs       map[string]int // function -> instruction count (encoded functions)
-	Wall        time.Duration
-	SolverTime  time.Duration
+	Stubs        map[string]int
+	Funcs        map[string]int // function -> instruction count (encoded functions)
+	Wall         time.Duration
+	SolverTime   time.Duration
 	MaxPathSteps int
-	Nontrivial  int // paths with >=1 solver-decided branch that reached an assertion
+	Nontrivial   int // paths with >=1 solver-decided branch that reached an assertion
 }
 
 type QueryStats struct {
 	Branch, Assert, Assume, Concretize, Witness int
-	Sat, Unsat, Unknown                          int
+	Sat, Unsat, Unknown                         int
 }
 
 type decision struct {
@@ -99,35 +100,40 @@ type Engine struct {
 	decPC  []int // pc index of each decision on this run
 
 	// per-path state
-	pc        []*Term
-	solverPC  []*Term // what is on the solver stack (for determinism check)
-	decided   map[*Term]bool
-	globals   map[*ssa.Global]*Cell
-	inited    map[*ssa.Package]bool
-	cellSeq   int
-	steps     int
-	depth     int
-	curFrames []*frame
-	obs       []obsRec
-	reached   []string
-	symStrs   map[string][]Value
-	pathDecided int
-	pathAsserted bool
-	actor     int
-	foot      map[int]map[int]uint8 // actor -> cell id -> R(1)|W(2)
+	pc             []*Term
+	solverPC       []*Term // what is on the solver stack (for determinism check)
+	decided        map[*Term]bool
+	globals        map[*ssa.Global]*Cell
+	inited         map[*ssa.Package]bool
+	cellSeq        int
+	steps          int
+	depth          int
+	curFrames      []*frame
+	obs            []obsRec
+	reached        []string
+	symStrs        map[string][]Value
+	pathDecided    int
+	pathAsserted   bool
+	actor          int
+	foot           map[int]map[int]uint8 // actor -> cell id -> R(1)|W(2)
 	stdout, stderr []Value
-	bufs      map[*Cell]Value // bytes.Buffer / strings.Builder contents
-	natives   map[string]Value
+	bufs           map[*Cell]Value // bytes.Buffer / strings.Builder contents
+	pools          map[*Cell][]Value
+	natives        map[string]Value
 
-	noSamples    bool
-	jobVars      []*Term
-	jobVarSet    map[*Term]bool
-	stubOf       map[*ssa.Function]stubFn
-	lastPanic    string
-	lastConflict int
+	noSamples                 bool
+	noIntercept               *ssa.Function
+	partial                   string // non-empty: this path under-approximates (see ropeSlice)
+	env                       map[string]Value
+	faultSeq                  map[string]int
+	jobVars                   []*Term
+	jobVarSet                 map[*Term]bool
+	stubOf                    map[*ssa.Function]stubFn
+	lastPanic                 string
+	lastConflict              int
 	wgDefer, wgSwap, wgActors bool
-	wgTasks      []*Closure
-	fileWrites   []Value
+	wgTasks                   []*Closure
+	fileWrites                []Value
 
 	knownValid map[*Term]bool
 	funcsHit   map[*fnInfo]int
@@ -383,7 +389,11 @@ func (e *Engine) resetPath() {
 	e.foot = map[int]map[int]uint8{}
 	e.stdout, e.stderr = nil, nil
 	e.bufs = map[*Cell]Value{}
+	e.pools = map[*Cell][]Value{}
 	e.natives = map[string]Value{}
+	e.env = map[string]Value{}
+	e.partial = ""
+	e.faultSeq = map[string]int{}
 	e.wgDefer, e.wgSwap, e.wgActors, e.wgTasks = false, false, false, nil
 	e.fileWrites = nil
 	e.lastPanic = ""
@@ -409,6 +419,9 @@ func (e *Engine) runOnce(fn *ssa.Function, args []Value) (end pathEnd) {
 		}
 	}()
 	e.call(fn, args, nil)
+	if e.partial != "" {
+		return pathEnd{"unsupported", e.partial}
+	}
 	return pathEnd{"ok", ""}
 }
 
@@ -579,7 +592,6 @@ func (e *Engine) Explore(fn *ssa.Function, args []Value) *Result {
 	}
 	return res
 }
-
 
 // SortedKeys is a small helper for deterministic output.
 func SortedKeys[V any](m map[string]V) []string {
